@@ -7,7 +7,7 @@ LEVEL = 'exploration'
 RULE = ('ALL 65536 relations over input bits {a, b} and output bits {p, q}, '
         'each with requested outputs {p}, {q}, {p,q} and {p,q,r} (r ignored '
         'by the relation), under two namings of the outputs (so that both '
-        'extraction orders occur) and with / without the CUDD restrict path; '
+        'extraction orders occur) and with / without the CUDD restrict path, on a CUDD manager and (a quarter in quick, all in thorough) on a dd.autoref manager; '
         'plus all 256x... relations over one input and three outputs '
         '(thorough: all 65536; quick: a seed-rotated quarter) and structured '
         'relations over 8-10 bits from integer formulas. For every input with '
@@ -50,6 +50,10 @@ def shards(tier, seed):
             if tier != 'thorough' and nm == 2 and (lo // step + seed) % 4:
                 continue
             out.append(dict(kind='ab_pq', lo=lo, hi=lo + step, naming=nm))
+            if nm == 0 and (tier == 'thorough' or
+                            (lo // step + seed) % 4 == 1):
+                out.append(dict(kind='ab_pq', lo=lo, hi=lo + step, naming=nm,
+                                backend='autoref'))
     for lo in range(0, 65536, step):
         if tier != 'thorough' and (lo // step + seed) % 4:
             continue
@@ -65,7 +69,8 @@ def cases(shard):
                 yield dict(kind='structured', idx=i, restrict=restrict)
         return
     for tt in range(shard['lo'], shard['hi']):
-        yield dict(kind=shard['kind'], tt=tt, naming=shard['naming'])
+        yield dict(kind=shard['kind'], tt=tt, naming=shard['naming'],
+                   backend=shard.get('backend', 'cudd'))
 
 
 STRUCTURED = [
@@ -118,8 +123,12 @@ def run_case(case, acc):
             continue
         try:
             for req in requests:
-                bdd = dd.cudd.BDD(memory_estimate=2**26,
-                                  initial_cache_size=2**8)
+                if case.get('backend') == 'autoref':
+                    import dd.autoref
+                    bdd = dd.autoref.BDD()
+                else:
+                    bdd = dd.cudd.BDD(memory_estimate=2**26,
+                                      initial_cache_size=2**8)
                 bdd.declare(*(bits + extra))
                 rows = [r for i, r in enumerate(itertools.product(
                     [False, True], repeat=len(bits))) if tt >> i & 1]
